@@ -103,3 +103,40 @@ theorem div_lt_of_lt_pad (x n b : Nat) (hb : 4 ∣ b) (hpos : 0 < b) (hx : x < p
   rw [this]; omega
 
 end Sgz
+
+namespace Sgz
+theorem div_mixed (a b m : Nat) (hb : b < m) : (a * m + b) / m = a := by
+  have hm : 0 < m := by omega
+  rw [Nat.add_comm, Nat.add_mul_div_right _ _ hm, Nat.div_eq_of_lt hb, Nat.zero_add]
+
+theorem mod_mixed (a b m : Nat) (hb : b < m) : (a * m + b) % m = b := by
+  rw [Nat.add_comm, Nat.add_mul_mod_self_right, Nat.mod_eq_of_lt hb]
+
+theorem div_add_mod' (n m : Nat) : n / m * m + n % m = n := by
+  rw [Nat.mul_comm]; exact Nat.div_add_mod n m
+end Sgz
+
+namespace Sgz
+/-- unit index of a voxel, split into block index and unit-in-block: quotient part -/
+theorem div4_div (z b : Nat) (hb : 4 ∣ b) (hpos : 0 < b) : (z / 4) / (b / 4) = z / b := by
+  rw [div4_split z b hb hpos]; exact div_mixed _ _ _ (mod_div4_lt z b hb hpos)
+
+/-- … and remainder part -/
+theorem div4_mod (z b : Nat) (hb : 4 ∣ b) (hpos : 0 < b) : (z / 4) % (b / 4) = (z % b) / 4 := by
+  rw [div4_split z b hb hpos]; exact mod_mixed _ _ _ (mod_div4_lt z b hb hpos)
+end Sgz
+
+namespace Sgz
+theorem pad_div4 (n b : Nat) (hb : 4 ∣ b) (hpos : 0 < b) : pad n b / 4 = (pad n b / b) * (b / 4) := by
+  have h := pad_div_mul n b hpos
+  obtain ⟨c, hc⟩ := hb
+  have hc4 : b / 4 = c := by rw [hc]; exact Nat.mul_div_cancel_left c (by omega)
+  rw [hc4]
+  have : pad n b = 4 * (pad n b / b * c) := by
+    calc pad n b = pad n b / b * b := h.symm
+      _ = pad n b / b * (4 * c) := by rw [← hc]
+      _ = 4 * (pad n b / b * c) := by rw [Nat.mul_left_comm]
+  rw [this, Nat.mul_div_cancel_left _ (by omega : 0 < 4)]
+  congr 1
+  rw [← this]
+end Sgz
